@@ -442,12 +442,17 @@ class Node:
         peer = self._find_connection_peer(conn)
         if not peer:
             return
-        peer.disconnect_reason = None
-        if not peer.connection:
-            peer.connection = conn
-        if conn.ident in self._half_ready_connections:
-            del self._half_ready_connections[conn.ident]
-            peer.last_connect = int(time.time())
+        with self._ready_lock:
+            if conn.ident not in self.connections:
+                # the connection thread has removed the connection while
+                # its capabilities exchange was being completed
+                return
+            peer.disconnect_reason = None
+            if not peer.connection:
+                peer.connection = conn
+            if conn.ident in self._half_ready_connections:
+                del self._half_ready_connections[conn.ident]
+                peer.last_connect = int(time.time())
 
     def _check_timers(self, conn: PeerConnection):
         """Validate timers for a connection.
@@ -610,6 +615,8 @@ class Node:
 
     def _flag_connection_as_ready(self, conn: PeerConnection):
         with self._ready_lock:
+            if conn.ident not in self.connections:
+                return
             conn.state = PEER_READY
             for app_peers in self._peer_routes.values():
                 for app, peers in app_peers.items():
@@ -1482,22 +1489,25 @@ class Node:
                 one of the `PEER_DISCONNECT_REASON_*` constant values.
 
         """
-        if conn.ident in self.connections:
-            del self.connections[conn.ident]
-        if conn.ident in self.peer_sockets:
-            del self.peer_sockets[conn.ident]
-        if conn.ident in self._half_ready_connections:
-            del self._half_ready_connections[conn.ident]
-        if self.socket_peers.get(conn.socket_fileno) is conn:
-            del self.socket_peers[conn.socket_fileno]
-        peer = self._find_connection_peer(conn)
-        if peer and peer.connection in (None, conn):
-            # unset so that a new connection may be made later
-            peer.connection = None
-            peer.last_disconnect = int(time.time())
-            # only set if not yet set
-            if peer.disconnect_reason is None:
-                peer.disconnect_reason = disconnect_reason
+        # under the lock that a connection's read thread takes when it assigns
+        # the connection to its peer and flags it ready
+        with self._ready_lock:
+            if conn.ident in self.connections:
+                del self.connections[conn.ident]
+            if conn.ident in self.peer_sockets:
+                del self.peer_sockets[conn.ident]
+            if conn.ident in self._half_ready_connections:
+                del self._half_ready_connections[conn.ident]
+            if self.socket_peers.get(conn.socket_fileno) is conn:
+                del self.socket_peers[conn.socket_fileno]
+            peer = self._find_connection_peer(conn)
+            if peer and peer.connection in (None, conn):
+                # unset so that a new connection may be made later
+                peer.connection = None
+                peer.last_disconnect = int(time.time())
+                # only set if not yet set
+                if peer.disconnect_reason is None:
+                    peer.disconnect_reason = disconnect_reason
 
         # Remove pending answer tracking; we cannot know if the peer will
         # persist its hop-by-hop IDs over reconnect.
